@@ -112,7 +112,14 @@ func c13Eval(c *fw.Ctx, data any) {
 					panic(err)
 				}
 				lenF = func() int { return int(d.Len()) }
+				calls := 0
 				encF = func() ([]byte, error) {
+					calls++
+					if calls%2 == 0 {
+						// "buffer too small, retry with a bigger one": an encode of the same value into a destination
+						// that is too short (or empty) comes first; what the retry gives must be the whole message
+						d.Read(make([]byte, []int{0, 1, 100, 239, 241}[calls/2%5]))
+					}
 					buf := make([]byte, 4096)
 					n, err := d.Read(buf)
 					return buf[:n], err
@@ -121,7 +128,12 @@ func c13Eval(c *fw.Ctx, data any) {
 			case "lldp":
 				l := lib.BuildLLDP(m)
 				lenF = func() int { return int(l.Len()) }
+				calls := 0
 				encF = func() ([]byte, error) {
+					calls++
+					if calls%2 == 0 {
+						fw.Recover(func() { l.Read(make([]byte, []int{0, 1, 5, 9}[calls/2%4])) })
+					}
 					buf := make([]byte, 4096)
 					n, err := l.Read(buf)
 					return buf[:n], err
